@@ -15,7 +15,7 @@ Reading of the statement:
 `Wf` and atomicity hold for every call sequence, whatever the route (workers, placeholders, failed calls,
 retries).  (I1) is false of the code that exists when two publishers are registered on one placeholder port
 (finding C11-F1): `_full` + `_counterexample` + `_partial`.  The placeholder clause is false when the head
-placeholder merely compares equal to the tail worker (finding C11-F2): `_full` + `_counterexample` + `_partial`.
+placeholder compares equal to the tail worker, i.e. the tail is its registered publisher (finding C11-F2): `_full` + `_counterexample` + `_partial`.
 -/
 import ForML.Lemmas.C11Closure
 import ForML.Lemmas.C11Cycle
@@ -31,6 +31,10 @@ private theorem worker_or_future (g : G) (n : Nat) (h : n < g.nodes.length) :
   rw [this]
   rcases g.nodes[n] with ⟨k, a, b⟩
   cases k <;> simp
+
+private theorem publish_future' (g : G) (p pi s k : Nat) (hf : isFuture g s = true) (hne : s ≠ p) :
+    publish g p pi ⟨s, .apply k⟩ = register g s k p pi :=
+  publish_future g p pi ⟨s, .apply k⟩ hf hne
 
 /-- creating a node keeps `Wf` -/
 private theorem wf_nodes (g : G) (nd : Node) (k : Nat) (hw : Wf g) :
@@ -94,6 +98,20 @@ theorem C11_wf_step (g : G) (op : Op) (hw : Wf g) : Wf (step g op).1 := by
           · exact h
           · exact absurd h hf
         exact publish_wf g p pi ⟨s, .apply j⟩ hw hwk hp (fun h => by simp [Port.isApply] at h)
+  | publish p pi s k =>
+    simp only [step, publishOp]
+    split
+    · exact hw
+    · rename_i hlen
+      have hs : s < g.nodes.length := by omega
+      have hp : p < g.nodes.length := by omega
+      rcases worker_or_future g s hs with hwk | hf
+      · exact publish_wf g p pi ⟨s, .apply k⟩ hw hwk hp (fun h => by simp [Port.isApply] at h)
+      · by_cases heq : s = p
+        · obtain ⟨e, h⟩ := publish_self_future g p pi ⟨s, .apply k⟩ hf heq
+          rw [h]; exact hw
+        · rw [publish_future' g p pi s k hf heq]
+          exact register_wf g s k p pi hw hf hp
   | train n tp ti lp li =>
     simp only [step]
     rcases train_cases g n tp ti lp li hw with ⟨e, h⟩ | ⟨L1, L2, h, _, _, hw2, _⟩
@@ -146,6 +164,21 @@ theorem C11_atomic_step (g : G) (op : Op) (hw : Wf g) (he : (step g op).2.isErr 
           · exact h
           · exact absurd h hf
         exact publish_atomic g p pi ⟨s, .apply j⟩ hw hwk hp he
+  | publish p pi s k =>
+    simp only [step, publishOp] at he ⊢
+    split
+    · rfl
+    · rename_i hlen
+      simp only [hlen, ↓reduceIte] at he
+      have hs : s < g.nodes.length := by omega
+      have hp : p < g.nodes.length := by omega
+      rcases worker_or_future g s hs with hwk | hf
+      · exact publish_atomic g p pi ⟨s, .apply k⟩ hw hwk hp he
+      · by_cases heq : s = p
+        · obtain ⟨e, h⟩ := publish_self_future g p pi ⟨s, .apply k⟩ hf heq
+          rw [h]
+        · rw [publish_future' g p pi s k hf heq] at he ⊢
+          exact register_atomic g s k p pi hw hf hp he
   | train n tp ti lp li =>
     simp only [step] at he ⊢
     rcases train_cases g n tp ti lp li hw with ⟨e, h⟩ | ⟨L1, L2, h, _⟩
@@ -176,6 +209,7 @@ example :
 /-- the call does not give a placeholder input port a second publisher -/
 def SingleOp (g : G) : Op → Bool
   | .subscribe s j _ _ => !(isFuture g s && g.regs.any (fun r => r.fut == s && r.idx == j))
+  | .publish _ _ s k => !(isFuture g s && g.regs.any (fun r => r.fut == s && r.idx == k))
   | _ => true
 
 /-- one call (any kind, any route, failing or not) that registers no second publisher on a placeholder port keeps
@@ -223,6 +257,32 @@ theorem C11_chain_step (g : G) (op : Op) (hw : Wf g) (hs : SingleReg g) (hc : Ch
           obtain ⟨_, fresh, _, _, _, f5, f6⟩ := facts
           exact ⟨hs, chain_publish g _ ⟨s, .apply j⟩ L p pi (fuelOf g) hs hc rfl rfl fresh
             (fun e he => ⟨(f5 e he).1, f6 e he⟩)⟩
+  | publish p pi s k =>
+    simp only [step, publishOp]
+    split
+    · exact ⟨hs, hc⟩
+    · rename_i hlen
+      have hsl : s < g.nodes.length := by omega
+      have hp : p < g.nodes.length := by omega
+      rcases worker_or_future g s hsl with hwk | hf
+      · rcases publish_cases g p pi ⟨s, .apply k⟩ hw hwk hp with ⟨e, h⟩ | ⟨L, h, _, facts⟩
+        · rw [h]; exact ⟨hs, hc⟩
+        · rw [h]
+          obtain ⟨_, fresh, _, _, _, f5, f6⟩ := facts
+          exact ⟨hs, chain_publish g _ ⟨s, .apply k⟩ L p pi (fuelOf g) hs hc rfl rfl fresh
+            (fun e he => ⟨(f5 e he).1, f6 e he⟩)⟩
+      · by_cases heq : s = p
+        · obtain ⟨e, h⟩ := publish_self_future g p pi ⟨s, .apply k⟩ hf heq
+          rw [h]; exact ⟨hs, hc⟩
+        · rw [publish_future' g p pi s k hf heq]
+          have hno : ∀ r ∈ g.regs, ¬(r.fut = s ∧ r.idx = k) := by
+            intro r hr ⟨h1, h2⟩
+            simp only [SingleOp, hf, Bool.true_and, Bool.not_eq_true', List.any_eq_false, Bool.and_eq_true,
+              beq_iff_eq, not_and] at ho
+            exact ho r hr h1 h2
+          rcases register_cases g s k p pi hw hf hp with ⟨e, h⟩ | ⟨L, h, facts⟩
+          · rw [h]; exact ⟨hs, hc⟩
+          · rw [h]; exact chain_register g s k p pi L hs hc hno facts
   | train n tp ti lp li =>
     simp only [step]
     rcases train_cases g n tp ti lp li hw with ⟨e, h⟩ | ⟨L1, L2, h, facts1, facts2, _, _⟩
@@ -353,6 +413,26 @@ theorem C11_closed_step (g : G) (op : Op) (hw : Wf g) (hc : Closed g) : Closed (
         · rw [h]
           obtain ⟨_, _, _, _, _, f5, f6⟩ := facts
           exact closed_publish g p pi ⟨s, .apply j⟩ L hc hpt (fun e he => ⟨(f5 e he).1, f6 e he⟩)
+  | publish p pi s k =>
+    simp only [step, publishOp]
+    split
+    · exact hc
+    · rename_i hlen
+      have hsl : s < g.nodes.length := by omega
+      have hp : p < g.nodes.length := by omega
+      rcases worker_or_future g s hsl with hwk | hf
+      · rcases publish_cases g p pi ⟨s, .apply k⟩ hw hwk hp with ⟨e, h⟩ | ⟨L, h, hpt, facts⟩
+        · rw [h]; exact hc
+        · rw [h]
+          obtain ⟨_, _, _, _, _, f5, f6⟩ := facts
+          exact closed_publish g p pi ⟨s, .apply k⟩ L hc hpt (fun e he => ⟨(f5 e he).1, f6 e he⟩)
+      · by_cases heq : s = p
+        · obtain ⟨e, h⟩ := publish_self_future g p pi ⟨s, .apply k⟩ hf heq
+          rw [h]; exact hc
+        · rw [publish_future' g p pi s k hf heq]
+          rcases register_cases g s k p pi hw hf hp with ⟨e, h⟩ | ⟨L, h, facts⟩
+          · rw [h]; exact hc
+          · rw [h]; exact closed_register g s k p pi L hc h facts
   | train n tp ti lp li =>
     simp only [step]
     rcases train_cases g n tp ti lp li hw with ⟨e, h⟩ | ⟨L1, L2, h, facts1, facts2, _, hpt1, hpt2⟩
@@ -478,15 +558,17 @@ private theorem visit_pivot (g : G) (tail fuel pivot : Nat) (seen : List Nat) :
 def C11_placeholder_full : Prop :=
   ∀ (g : G) (h : Nat) (t : Option Nat) (tl : Nat), validate g h t = .node tl → isFuture g h = true → tl = h
 
-/-- C11-F2: an unconnected placeholder head compares equal to an unconnected tail worker and is skipped -/
+/-- C11-F2: a placeholder head whose registered publisher is given as the tail (and holds the same subscriptions)
+compares equal to it and is skipped as if it were the tail -/
 theorem C11_placeholder_counterexample : ¬ C11_placeholder_full := by
   intro h
-  have := h (run init [.mkFuture 1 1, .mkWorker false 1 1]) 0 (some 1) 1 (by decide) (by decide)
+  have := h (run init [.mkWorker false 1 1, .mkFuture 1 1, .mkWorker false 1 1, .subscribe 1 0 0 0, .subscribe 2 0 1 0])
+    1 (some 0) 0 (by decide) (by decide)
   revert this
   decide
 
 /-- **C11_placeholder_partial**: the validator accepts a placeholder head only when it compares equal to the tail
-(`Node.__eq__`: same number of output ports holding equal subscriptions) -/
+(`Node.__eq__`: same number of output ports holding equal subscriptions, not all of them empty) -/
 theorem C11_placeholder_partial (g : G) (h : Nat) (t : Option Nat) (tl : Nat)
     (hv : validate g h t = .node tl) (hf : isFuture g h = true) : eqNode g h tl = true := by
   unfold validate at hv
